@@ -480,8 +480,8 @@ func ruleIndexDiscipline(cx *Ctx) []Obligation {
 	if nWrap < 4 {
 		obs = append(obs, undecided("C19/O19.5/raw-u64-identity/floor", "the decoder's variable constructors are found", fmt.Sprintf("%d calls of gl.NewVariable in the decoder (4 confirmed by hand)", nWrap)))
 	}
-	if nLoops < 8 {
-		obs = append(obs, undecided("C19/O19.4/position/floor", "the decoder's copy loops are found", fmt.Sprintf("%d loops", nLoops)))
+	if nLoops < 5 {
+		obs = append(obs, undecided("C19/O19.4/position/floor", "the decoder's copy loops are found", fmt.Sprintf("%d loops (at least 5 expected; 8 today)", nLoops)))
 	}
 	return obs
 }
